@@ -134,6 +134,29 @@ Section Generic.
     rewrite run_app. cbn [snd]. f_equal. unfold run_of at 1. cbn [run step snd]. f_equal.
     rewrite run_state_of, split_invariance_gen. reflexivity.
   Qed.
+
+  (* ---- run-length encoded batches: the weighted sum IS the sum over the expanded batch *)
+  Lemma bsum_repeat (r : a_R A) (c : positive) :
+    bsum_of A (repeat r (Pos.to_nat c)) = ptimes A c (a_contrib A r).
+  Proof.
+    unfold ptimes, bsum_of. induction c as [|c IH] using Pos.peano_ind.
+    - cbn. apply Hzr.
+    - rewrite Pos2Nat.inj_succ. cbn [repeat bsum fold_right].
+      change (fold_right (fun r0 a => a_plus A (a_contrib A r0) a) (a_zero A) (repeat r (Pos.to_nat c)))
+        with (bsum (a_St A) (a_R A) (a_zero A) (a_plus A) (a_contrib A) (repeat r (Pos.to_nat c))).
+      rewrite IH. symmetry. apply Pos.iter_op_succ. exact Hassoc.
+  Qed.
+
+  Theorem rl_bsum_expand (runs : list (a_R A * positive)) : rl_bsum A runs = bsum_of A (expand runs).
+  Proof.
+    induction runs as [|[r c] runs IH]; [reflexivity|].
+    unfold expand. cbn [flat_map fst snd]. fold (expand runs).
+    unfold bsum_of. rewrite (bsum_app _ _ _ _ _ Hassoc Hzl). fold (bsum_of A (repeat r (Pos.to_nat c))). fold (bsum_of A (expand runs)).
+    rewrite bsum_repeat, <- IH. reflexivity.
+  Qed.
+
+  Theorem rl_oneshot_expand (runs : list (a_R A * positive)) : rl_oneshot A runs = oneshot A (expand runs).
+  Proof. unfold rl_oneshot, oneshot, upd_of, upd. rewrite rl_bsum_expand. reflexivity. Qed.
 End Generic.
 
 (* ================================================================================ the ten instances are lawful *)
